@@ -311,6 +311,7 @@ pub struct GenCtx {
     pub cap_left: usize,
     pub held_usable: usize,
     pub live_ids: Vec<(usize, usize, usize)>, // (id, size, align) of blocks obtained via the Allocator API / alloc_layout
+    pub top: Option<usize>, // index into `live_ids` of the block that starts at the bump finger (the only one grow/shrink handle in place)
     pub n_ops: usize,
     pub has_bump: bool,
     pub last_failed_init: Option<(usize, usize)>,
@@ -445,7 +446,12 @@ pub fn gen_op(r: &mut Rng, prof: Profile, m: usize, uniform: Option<usize>, c: &
                     continue;
                 }
                 // prefer the most recent block (the only one that can be handled in place)
-                let i = if r.chance(3, 5) { c.live_ids.len() - 1 } else { r.below(c.live_ids.len() as u64) as usize };
+                let mut i = if r.chance(3, 5) { c.live_ids.len() - 1 } else { r.below(c.live_ids.len() as u64) as usize };
+                if let Some(t) = c.top {
+                    if (k == 7 || k == 8) && r.chance(1, 2) {
+                        i = t;
+                    }
+                }
                 let (id, osz, oal) = c.live_ids[i];
                 match k {
                     6 => Op::AFree { id },
@@ -656,6 +662,8 @@ pub struct Exec<const M: usize> {
     pub cap_budget: Option<usize>,
     pub static_addr: usize,
     pub applied: bool,
+    pub resets: usize, // number of `reset` calls so far in this plan
+    pub grown_since_reset: bool, // a chunk was obtained after the last `reset`
     /// ids of droppable elements that live in arena memory: the arena must never run their destructors
     pub tok_ranges: Vec<(u64, u64)>,
     pub tok_seq: u64,
@@ -743,6 +751,8 @@ impl<const M: usize> Exec<M> {
             cap_budget: None,
             static_addr,
             applied: false,
+            resets: 0,
+            grown_since_reset: false,
             tok_ranges: vec![],
             tok_seq: 0,
         }
@@ -763,16 +773,15 @@ impl<const M: usize> Exec<M> {
             Some(b) => (b.chunk_capacity(), b.allocated_bytes()),
             None => (0, 0),
         };
+        let finger = self.bump.as_ref().and_then(|b| unsafe { b.iter_allocated_chunks_raw().next() }).map(|(p, _)| p as usize);
+        let live_ids: Vec<(usize, usize, usize)> =
+            self.blocks.iter().enumerate().filter(|(_, b)| b.live && b.raw).map(|(i, b)| (i, b.size, b.align)).collect();
+        let top = live_ids.iter().position(|(i, _, _)| Some(self.blocks[*i].ptr) == finger);
         GenCtx {
             cap_left,
             held_usable,
-            live_ids: self
-                .blocks
-                .iter()
-                .enumerate()
-                .filter(|(_, b)| b.live && b.raw)
-                .map(|(i, b)| (i, b.size, b.align))
-                .collect(),
+            live_ids,
+            top,
             n_ops: self.op_idx,
             has_bump: self.bump.is_some(),
             last_failed_init: self.last_failed_init,
@@ -915,12 +924,18 @@ impl<const M: usize> Exec<M> {
                             let before: usize = self.held.iter().map(|(_, s, _)| s.saturating_sub(ov)).sum();
                             if before + (size - ov.min(size)) > l {
                                 self.fail("C07", "limit-exceeded", format!("limit={} held-usable-before={} new-chunk={}", l, before, size));
+                                if self.resets > 0 && !self.grown_since_reset {
+                                    // C06: the arena keeps its limit across a reset (a limit that is still reported but is not
+                                    // enforced for the first growth after the reset has not been kept)
+                                    self.fail("C06", "limit-not-kept-after-reset", format!("limit={} held-usable-before={} new-chunk={} resets={}", l, before, size, self.resets));
+                                }
                             }
                         }
                         if self.held.iter().any(|(a, s, _)| addr < a + s && *a < addr + size) {
                             self.fail("C03", "allocator-returned-overlap", format!("addr={}", hex(addr)));
                         }
                         self.held.push((addr, size, align));
+                        self.grown_since_reset = true;
                     }
                 }
                 Ev::Free { addr, size, align } => {
@@ -1773,6 +1788,8 @@ impl<const M: usize> Exec<M> {
             Op::Reset => {
                 let b = self.bump.as_mut().unwrap();
                 let (r, evs) = galloc::record(|| catch_unwind(AssertUnwindSafe(|| b.reset())));
+                self.resets += 1;
+                self.grown_since_reset = false;
                 self.blocks.iter_mut().for_each(|b| b.live = false);
                 self.apply_events(&evs, op, None);
                 match r {
